@@ -19,7 +19,7 @@ Proof. vm_compute. reflexivity. Qed.
    retries, a partial failure, a queue-full refusal and a shutdown-interrupted export satisfies
    the hypotheses and exercises all three counters *)
 Definition opts_demo : eopts :=
-  {| o_sig := Metrics; o_queue := true; o_storage := false; o_items_sizer := true; o_cap := 40; o_wfr := false;
+  {| o_sig := Metrics; o_queue := true; o_storage := false; o_items_sizer := true; o_cap := 40; o_wfr := false; o_block := false; o_badmarshal := -1;
      o_qbatch := Some (10, 15); o_batcher := None; o_retry := true; o_tracing := true |}.
 Definition outs_demo : list aout := [ATransient; AOk; APartial 3; APermanent; AOk; AHang; ATransient].
 Definition ops_demo : list eop := [OOffer 7; OOffer 20; OBurst [30; 9; 5]; OFlush; OOffer 12; OOffer 3].
@@ -62,3 +62,18 @@ Example pipe_history :
   let ops := [{| pc_n := 10; pc_after := 0; pc_err := false |}; {| pc_n := 8; pc_after := 4; pc_err := true |}] in
   (lget (PipeOk Logs) (pipe_run Logs ops), lget (PipeFail Logs) (pipe_run Logs ops)) = (10, 8).
 Proof. vm_compute. reflexivity. Qed.
+
+(* the hypotheses of exporter_balance_persistent_general_partial are satisfiable with something left stored:
+   persistent queue behind the legacy batcher, a refusal, unread requests at shutdown, nothing kept by a
+   shutdown-class OnDone *)
+Definition opts_pers : eopts :=
+  {| o_sig := Traces; o_queue := true; o_storage := true; o_items_sizer := false; o_cap := 2; o_wfr := false; o_block := false; o_badmarshal := -1;
+     o_qbatch := None; o_batcher := Some (4, 0); o_retry := true; o_tracing := false |}.
+Example persistent_hypotheses_satisfiable :
+  let st := run_exporter opts_pers [ATransient; AOk] [OOffer 3; OOffer 2; OBurst [1; 1; 1]] in
+  (s_wfr_failed st, s_kept st, s_stored st, s_offered st) = (0, 0, 0, 8) /\ valid_batch opts_pers.
+Proof. split; [vm_compute; reflexivity|intros mn mx H; vm_compute in H; inversion H; lia]. Qed.
+
+(* gauges_persistent_never_overcounts / the NN switch: non-negative histories exist and reach the bound strictly *)
+Example nonneg_history : Forall eop_nonneg [OOffer 3; OBurst [1; 0; 2]; OFlush].
+Proof. repeat constructor; cbn; lia. Qed.
